@@ -252,11 +252,12 @@ example : (parseOp "query Q($v: [Int!] = [1, 2]) @d(a: \"x\\u{1F600}\") { a: b(x
     = false := (parse_no_panic _).1
 
 /-
-OPEN — carried by K/O only (stated, not proved):
+The later stages are in `Props/C08Stages.lean`: `resolveExt_total`, `resolveImports_total`, `checkOp_total`, `checkTs_total`,
+`generate_total_partial` (the unconditional `generate_total` is FALSE: `generate_total_counterexample` — same response key
+for a leaf and an object —, `generate_shadowed_skip_counterexample`), `render_error_total`, `loader_total`,
+`js_printers_total`, `schemaDecls_lookups_total`, `pipeline_no_panic_partial`; its OPEN block says what is left there.
 
-theorem resolveExt_total, resolveImports_total, check_total, generate_total, render_error_total, loader_total
-  -- later stages: exercised by the O stream of c08.rs only (every public entry point under catch_unwind);
-  -- generate_total is FALSE today (open finding: same response key for a leaf and an object).
+OPEN — carried by K/O only (stated, not proved), for the parser part:
 
 What `parse_no_panic` does NOT say: (1) it is about the MODEL (`Model/Peg.lean` + `Model/Build.lean`, generated tables);
 that the model's outcome — including the panic site — equals the real parser's on every text is the K stream;
